@@ -104,4 +104,26 @@ def primAux : Nat → Nat → Nat → List Nat
     else primAux fuel n (d + 1)
 def primfaktoren (z : Nat) : List Nat := primAux (2 * z) z 2
 
+/-! ### more text functions -/
+def loescheT (t : Text) (i : Nat) : Option Text := if 1 ≤ i ∧ i ≤ t.length then some (t.take (i - 1) ++ t.drop i) else none
+def loescheBereichT (t : Text) (a b : Nat) : Option Text := if 1 ≤ a ∧ a ≤ b ∧ b ≤ t.length then some (t.take (a - 1) ++ t.drop b) else none
+/-- `Setze e an die Stelle i von t`: e starts at position i afterwards -/
+def einfuegenT (t : Text) (i : Nat) (e : Text) : Option Text := if 1 ≤ i ∧ i ≤ t.length then some (t.take (i - 1) ++ e ++ t.drop (i - 1)) else none
+/-- the 1-based start positions of the occurrences of `u` found from left to right without overlap -/
+def findeAux (u : Text) : Nat → Text → Nat → List Nat
+  | 0, _, _ => []
+  | _ + 1, [], _ => []
+  | fuel + 1, c :: r, pos =>
+    if u.isPrefixOf (c :: r) then pos :: findeAux u fuel ((c :: r).drop u.length) (pos + u.length)
+    else findeAux u fuel r (pos + 1)
+def finde (t u : Text) : List Nat := if u.isEmpty then [] else findeAux u (t.length + 1) t 1
+/-- split at the occurrences of a separator text (found from left to right without overlap) -/
+def spalteTextAux (u : Text) : Nat → Text → Text → List Text
+  | 0, _, cur => [cur.reverse]
+  | _ + 1, [], cur => [cur.reverse]
+  | fuel + 1, c :: r, cur =>
+    if u.isPrefixOf (c :: r) then cur.reverse :: spalteTextAux u fuel ((c :: r).drop u.length) []
+    else spalteTextAux u fuel r (c :: cur)
+def spalteText (t u : Text) : List Text := if t.isEmpty then [] else spalteTextAux u (t.length + 1) t []
+
 end DDP.Duden
